@@ -48,6 +48,7 @@ fn main() {
     let code = par::with_big_stack(move || match id.as_str() {
         "C01" => progmc::c01(thorough, replay),
         "C02" => progmc::c02(thorough, replay),
+        "C03" => progmc::c03(thorough, replay),
         "C04" => clvmmc::c04(thorough, replay),
         "C06" => clvmmc::c06(thorough, replay),
         "C07" => conv::c07(thorough, replay),
